@@ -36,6 +36,12 @@ func runC15(e *Env) {
 	if e.want("C15.R5") {
 		uintCodecClasses(e, "C15.R5")
 	}
+	if e.want("C15.R3") {
+		copyIsComplete(e, "C15.R3")
+	}
+	if e.want("C15.R2") {
+		setPathRemovesOldPath(e, "C15.R2")
+	}
 	if e.want("C15.R6") {
 		c15WhoGrows(e)
 	}
